@@ -343,6 +343,82 @@ func ruleR19c(h *H) {
 				}
 			}
 		})
+		if loopApp == 0 && tailApp == 1 && guardOK {
+			// the library idiom: append(slices.DeleteFunc(slices.Clone(list), item == old), new)
+			ir.Instrs(fn, func(in ssa.Instruction) {
+				c, ok := in.(*ssa.Call)
+				if !ok {
+					return
+				}
+				if b, isB := c.Call.Value.(*ssa.Builtin); !isB || b.Name() != "append" {
+					return
+				}
+				libCall := func(v ssa.Value, name string) *ssa.Call {
+					cc, ok := ir.Canon(v).(*ssa.Call)
+					if !ok {
+						return nil
+					}
+					f := cc.Call.StaticCallee()
+					if f == nil {
+						return nil
+					}
+					o := f
+					if f.Origin() != nil {
+						o = f.Origin()
+					}
+					if o.Pkg != nil && o.Pkg.Pkg.Path() == "slices" && o.Name() == name {
+						return cc
+					}
+					return nil
+				}
+				del := libCall(c.Call.Args[0], "DeleteFunc")
+				if del == nil {
+					return
+				}
+				src := del.Call.Args[0]
+				if cl := libCall(src, "Clone"); cl != nil {
+					src = cl.Call.Args[0]
+				}
+				pred := closureArg(del.Call.Args[1])
+				if ir.Canon(src) != ssa.Value(fn.Params[0]) || pred == nil {
+					return
+				}
+				okPred := false
+				ir.Instrs(pred, func(x ssa.Instruction) {
+					if ret, isRet := x.(*ssa.Return); isRet && len(ret.Results) == 1 {
+						holds := func(y ssa.Value, want ssa.Value) bool {
+							if ir.Canon(y) == want {
+								return true
+							}
+							// the address of a cell (spilled parameter / captured variable) that holds it
+							cell := y
+							if fv, isFV := y.(*ssa.FreeVar); isFV {
+								for _, mc := range ir.ClosureSites(pred) {
+									for i, f := range pred.FreeVars {
+										if f == fv && i < len(mc.Bindings) {
+											cell = mc.Bindings[i]
+										}
+									}
+								}
+							}
+							if al, isAl := cell.(*ssa.Alloc); isAl {
+								st := ir.AllStores(al)
+								return len(st) == 1 && ir.Canon(st[0].Val) == want
+							}
+							return false
+						}
+						if bo, isBo := ir.Canon(ret.Results[0]).(*ssa.BinOp); isBo && bo.Op == token.EQL && len(pred.Params) == 1 &&
+							ir.DependsOn(bo, func(y ssa.Value) bool { return holds(y, fn.Params[1]) }) &&
+							ir.DependsOn(bo, func(y ssa.Value) bool { return holds(y, pred.Params[0]) }) {
+							okPred = true
+						}
+					}
+				})
+				if okPred {
+					loopApp = 1
+				}
+			})
+		}
 		h.Verdict(loopApp == 1 && tailApp == 1 && guardOK, rule, "ensemble replacement in "+ir.FuncName(fn), h.P.Pos(fn.Pos()), "keeps every member except the old one, appends the new server once", "the ensemble replacement does not (only) drop the old server and append the new one once: the new ensemble may have a different size or a duplicate member")
 	}
 }
@@ -497,7 +573,8 @@ func ruleR19e(h *H) {
 			p, ok := x.(*ssa.Phi)
 			return ok && web[p]
 		}
-		isFresh := func(x ssa.Value) bool {
+		var isFresh func(x ssa.Value) bool
+		isFresh = func(x ssa.Value) bool {
 			c, ok := x.(*ssa.Call)
 			if !ok {
 				return false
@@ -510,7 +587,23 @@ func ruleR19e(h *H) {
 			if f.Origin() != nil {
 				o = f.Origin()
 			}
-			return strings.HasPrefix(f.Name(), "New") && o.Pkg != nil && o.Pkg.Pkg.Path() == setPkg
+			if strings.HasPrefix(f.Name(), "New") && o.Pkg != nil && o.Pkg.Pkg.Path() == setPkg {
+				return true
+			}
+			// an extracted helper that builds and returns a fresh set
+			if ir.InRepo(f) && f.Blocks != nil && f != w.Fn {
+				n, all := 0, true
+				ir.Instrs(f, func(in ssa.Instruction) {
+					if ret, isRet := in.(*ssa.Return); isRet && len(ret.Results) == 1 {
+						n++
+						if !isFresh(ir.Canon(ret.Results[0])) {
+							all = false
+						}
+					}
+				})
+				return n > 0 && all
+			}
+			return false
 		}
 		name := "anti-affinity result set in " + ir.FuncName(w.Fn)
 		combined := 0
